@@ -116,7 +116,7 @@ Proof. intros H. apply find_some in H. destruct H as [H1 H2]. split; [assumption
 
 Theorem lstep_inv s e : linv s -> linv (fst (lstep s e)).
 Proof.
-  intros I. destruct e as [t k refresh|id oc|k v|k]; cbn [lstep].
+  intros I. destruct e as [t k refresh|id oc|k v|k|k v]; cbn [lstep].
   - (* LStart *)
     pose proof I as I0. destruct I as [Ids Dis Tf Ts Tc Ni Wt].
     destruct (alookup k (ltable s)) as [id|] eqn:L; cbn [fst].
@@ -215,6 +215,8 @@ Proof.
     destruct (supersede_inv s k I) as (I1 & _ & _). cbn [fst]. apply (linv_set_map (supersede s k)). assumption.
   - (* LInvalidate *)
     destruct (supersede_inv s k I) as (I1 & _ & _). cbn [fst]. apply (linv_set_map (supersede s k)). assumption.
+  - (* LVolunteer *)
+    cbn [fst]. apply (linv_set_map s). assumption.
 Qed.
 
 Theorem lrun_inv es : forall s, linv s -> linv (fst (lrun s es)).
